@@ -6,7 +6,7 @@ from symdc.zpath import I, R, B, assume, flag
 from symdc.sqlmodel import Cell, CNULL, NULL, INT, REAL, TEXT, cell_eq, cell_same, ite_cell
 from symdc.state import Item, same_cols, CACHE_COLS, ALL_BUT_ROWID
 from symdc.spec import dead, live, write_with_cull, unchanged
-from obligations.cache_ops import Ctx, zv, written_int, exp_cell, tag_cell, clause_tags, POLICIES, SHORT
+from obligations.cache_ops import directive_aware, Ctx, zv, written_int, exp_cell, tag_cell, clause_tags, POLICIES, SHORT
 
 LO, HI = 0, 999999999999999
 
@@ -22,6 +22,7 @@ def assume_margin(x):
         assume(sx.zB(Or(k <= LO, k >= HI, And(k >= 2, k <= HI - 2))))
 
 
+@directive_aware
 def ob_push(w, P):
     x = Ctx(w, P)
     c = x.c
@@ -58,6 +59,7 @@ def ob_push(w, P):
     return x.result()
 
 
+@directive_aware
 def ob_pull(w, P):
     """pull and peek share the specification except for the fate of the returned item"""
     x = Ctx(w, P, sym_cfg=False)
@@ -143,4 +145,10 @@ def jobs(tier):
                 add('ob_pull', 'C10,C04,C08,C01', weight=N, must=['queue_empty', 'queue_item'], N=N, side=side, peek=peek)
         add('ob_pull', 'C10,C04,C08', N=N, side='front', peek=False, expire_time=True, tag=True)
         add('ob_pull', 'C10,C04,C08', N=N, side='back', peek=True, expire_time=True)
+    for func, P in (('ob_push', dict(side='back', policy='least-recently-stored')), ('ob_pull', dict(side='front', peek=False)), ('ob_pull', dict(side='front', peek=True))):
+        nm = func[3:] + ('.peek' if P.get('peek') else '')
+        out.append(dict(id=nm + '.busy.noretry', func=func, params=dict(N=2, busy=1, **P), tags=['C14', 'C08'], functions=FUNCS[func], weight=2, must_reach=['timeout_raised']))
+        out.append(dict(id=nm + '.busy.retry', func=func, params=dict(N=2, busy=1, retry=True, **P), tags=['C14'], functions=FUNCS[func], weight=10, must_reach=['lock_busy']))
+        out.append(dict(id=nm + '.fault', func=func, params=dict(N=2, fault=True, **P), tags=['C08'], functions=FUNCS[func], weight=20))
+        out.append(dict(id=nm + '.kill', func=func, params=dict(N=2, crash=True, **P), tags=['C07'], functions=FUNCS[func], weight=40, must_reach=['crashed']))
     return out
